@@ -491,6 +491,17 @@ def number_radix(O):
                 "the digits after the radix prefix are converted with the radix of the token kind", extra=[rt == bv64(0)])
     if nok == 0:
         O.inconclusive("vacuous: no accepted literal")
+    # every integer literal of the grammar goes through parse_number: no other body of the parser converts text to a number
+    # (a second converter - for a bits count, say - could read a radix differently)
+    conv = re.compile(r"from_str_radix|<[iu](?:8|16|32|64|128|size) as FromStr>::from_str|core::str::<impl str>::parse::<[iu]")
+    for name, f in m.funcs.items():
+        if not ("src/parser/" in name or name.startswith("parser::")) or re.search(r"::parse_number(?:::\{closure#\d+\})*$", name) or "::test" in name:
+            continue
+        for bb, (stmts, term) in f.blocks.items():
+            if term and term[0] == "call" and conv.search(str(term[2])):
+                O.violation("%s converts text to a number itself (%s)" % (name.split("::")[-1], str(term[2])[:50]), None,
+                            dict(R.facts, what="a second number converter in the parser"), R.battery, R.judge, name)
+                break
     O.note("from_str_radix is std's: the value of the digit string in the given radix, Err on an empty string, a foreign "
            "digit or overflow (contract, trusted); with lexer-tokens (2) the digit strings of the four token kinds are "
            "non-empty and contain only digits of their radix, so equal values in different radices convert equally")
